@@ -86,7 +86,7 @@ PLAN = {
         "rule": "every arm of macro_rules! fake as parsed from src/interface/macros.rs at check time (52 in the pinned tree): one generated well-typed instantiation per arm (function kind x unit/non-unit x option subset; out-parameter observed by `returns`, per-call sequence number), compiled separately; 24 (quick) / 2000 (thorough) seeded call scripts per arm (N in 0..4, matching and non-matching calls) compared call by call with a reference model that also predicts process aborts for non-unwinding ABIs; distinct = (arm, N, calls, non-matching) tuples",
         "assumptions": [A_N, "rustc accept/reject of the generated instantiation stands for 'a well-typed use'; the instantiation uses (a: u32, out: &mut u32 | *mut u32) [-> u32]"],
         "exhaustive": True,
-        "parts": [{"name": "C-fake-macro-arms", "engine": "C", "py": "c08", "bin": "", "args": [], "count": {"quick": 1, "thorough": 1}}],
+        "parts": [{"name": "C-fake-macro-arms", "engine": "C", "py": "c08", "bin": "", "args": [], "build": ["injectorpp"], "count": {"quick": 1, "thorough": 1}}],
     },
     "C09": {
         "level": "fault_enumeration",
